@@ -203,6 +203,10 @@ def evaluate_apply(rp):
     coq = 'check_apply_mapping %d %d %s %s %s' % (K, F, pc.kft(m3), core.nmat(mapping), pc.kft(o3))
     if not np.array_equal(out, pc.loop_apply(mask, mapping)):
         return 'aligned[k, f] != mask[mapping[k, f], f]', 'apply:spec', coq
+    cv = core.container_variants(lambda m_, p_: apply_mapping(m_, p_), [mask, mapping], out,
+                                 lambda r_, e: np.array_equal(np.asarray(r_), e), recast_allow=('int',), recast_args=[1])
+    if cv:
+        return 'apply_mapping: ' + cv, 'apply:container', coq
     if pc.is_perm_field(mapping, K):
         if not pc.rows_multiset_equal(o3, m3):
             return 'per-bin multiset of rows changed', 'apply:multiset', coq
@@ -213,6 +217,8 @@ def evaluate_apply(rp):
 
 def apply_case(rng, tier, i):
     K, F = int(rng.integers(1, 7)), int(rng.integers(1, 12))
+    if i % 4 == 3:
+        F = int(rng.integers(40, 130))          # realistic numbers of frequency bins (index arithmetic in narrow integer types)
     trail = [(), (int(rng.integers(1, 7)),), (int(rng.integers(1, 4)), 2)][int(rng.integers(0, 3))]
     mask = rng.normal(size=(K, F, *trail))
     if rng.random() < 0.2:
@@ -289,6 +295,12 @@ def evaluate_aligner(rp):
     r = pc.check_alignment_result(mask, mapping, aligned, K)
     if r is not None:
         return '%s (%s, %s mask)' % (r[0], tag, rp['kind']), 'aligner:%s:%s' % (r[1], tag), coq
+    # the same aligner object on other containers of the same values (layouts, integer typed binary masks, buffers refilled
+    # in place since an earlier call)
+    cv = core.container_variants(lambda *a_: al.calculate_mapping(*a_), list(args), np.asarray(mapping),
+                                 lambda r_, e: np.array_equal(np.asarray(r_), e), recast_allow=('int',))
+    if cv:
+        return '%s: %s' % (rp['which'], cv), 'aligner:container:' + tag, coq
     return None, None, coq
 
 
